@@ -217,11 +217,14 @@ def m3(ctx):
         C.check_only_allowed_skips(ctx, b, c.bb, [
             ("eq", lambda t, cond: "weak_shape(" in t and t.count("weak_shape(") >= 2),
             ("true", lambda t, cond: t.startswith("try_insert_compatible_slotmap_bij(")),
+            # (the own-slot loop written as `zip(..).all(|(x, y)| try_insert_compatible_slotmap_bij(x, y, ..))`: the same conflict test)
+            ("true", lambda t, cond: t.startswith("all(") and "all_slot_occurrences(" in t and C.is_forall_role(crate, cond[1], "try_insert_compatible_slotmap_bij")),
         ] + [("eq", lambda t, cond: t.startswith("discriminant(") and "discriminant(" in t[13:])], "ematch_node", "accepting a variant")
     # children: zip of all applied ids with all child patterns, inner loops exhaustive
     loops = C.iterator_loops(b)
     zl = [l for l in loops if role_mentions_call(l[1], "zip") and role_mentions_call(l[1], "applied_id_occurrences")]
-    ctx.check(len(zl) == 1 and C.loop_exhaustive(b, zl[0]) is not None, "children-zip", "children are matched by zipping applied_id_occurrences(n2) with the child patterns",
+    folds = child_folds(crate, b)
+    ctx.check((len(zl) == 1 and C.loop_exhaustive(b, zl[0]) is not None) or (not zl and len(folds) == 1), "children-zip", "children are matched by zipping applied_id_occurrences(n2) with the child patterns",
               "the child loop no longer zips the node's children with the pattern's children", where_of(b))
     for l in loops:
         if l is lp:
@@ -232,6 +235,47 @@ def m3(ctx):
     ctx.check(len(rec) >= 1, "recursion", "each child is matched recursively against its child pattern", "ematch_node no longer recurses into the children", where_of(b))
     if len(zl) == 1:
         every_child_matched(ctx, crate, b, zl[0])
+    elif len(folds) == 1:
+        every_child_matched_closure(ctx, crate, b, folds[0])
+
+
+def child_folds(crate, b):
+    """the child loop in adaptor form: `zip(applied_id_occurrences(variant), children).fold(vec![st], |acc, (id, pat)| ..)` (also
+    for_each / try_fold) — [(call site, closure body)] for closures that reach the recursive matcher"""
+    out = []
+    for c in b.calls:
+        if c.callee and c.callee.name in ("fold", "try_fold", "for_each", "try_for_each") and not b.blocks[c.bb]["cleanup"] and c.args:
+            r0 = b.role_of_operand(c.args[0])
+            if role_mentions_call(r0, "zip") and role_mentions_call(r0, "applied_id_occurrences") and not any(isinstance(x, tuple) and x[0] == "call" and x[1] in BAD_ADAPTORS for x in role_walk(r0)):
+                cl = C._closure_of_role(crate, b.role_of_operand(c.args[-1]))
+                if hasattr(cl, "calls") and any(x.callee and x.callee.name == "ematch_impl" for sub in cl.all_bodies() for x in sub.calls):
+                    out.append((c, cl))
+    return out
+
+
+def every_child_matched_closure(ctx, crate, b, fold):
+    """every_child_matched for the adaptor form: every path through the per-child closure passes the match step"""
+    c, cl = fold
+    cv = mir.inline_view(crate, cl, keep=MATCHER_ANCHORS)
+    steps = set()
+    for x in cv.calls:
+        if cv.blocks[x.bb]["cleanup"] or not x.callee:
+            continue
+        if x.callee.name == "ematch_impl":
+            steps.add(x.bb)
+        else:
+            for a in x.args:
+                for y in role_walk(cv.role_of_operand(a)):
+                    if isinstance(y, tuple) and y[0] == "agg" and isinstance(y[1], str) and y[1] in crate.bodies and any(z.callee and z.callee.name == "ematch_impl" for z in crate.bodies[y[1]].calls):
+                        steps.add(x.bb)
+    for l in C.iterator_loops(cv):
+        if any(x.bb in C.loop_body(cv, l) and x.callee and x.callee.name == "ematch_impl" for x in cv.calls):
+            steps.add(l[0])
+    ctx.floor("match steps inside the child loop of the node matcher", len(steps), 1)
+    ok = bool(steps) and cv.must_pass([0], cv.return_blocks(), steps)
+    ctx.check(ok, "every-child-matched", "every application of the per-child step passes the recursive match of that child against its pattern",
+              "the per-child step of the node matcher can answer without matching the child against its child pattern (an early return / fast path in front of the recursive ematch_impl): the child's slot arguments are never compared",
+              where_of(cl))
 
 
 def every_child_matched(ctx, crate, b, zl):
@@ -556,16 +600,28 @@ def m10(ctx):
         if b0.id in mir.default_inline_policy(crate) and b0.name not in MATCHER_ANCHORS and crate.aliases.get(b0.id) not in MATCHER_ANCHORS:
             continue            # a private single-use helper (the binding loop extracted): seen inside its caller
         b = mir.inline_view(crate, b0, keep=MATCHER_ANCHORS)
-        tis = [c for c in b.calls if c.callee and c.callee.name == "try_insert_compatible_slotmap_bij" and not b.blocks[c.bb]["cleanup"]]
+        tis = [c for c in b.all_calls() if c.callee and c.callee.name == "try_insert_compatible_slotmap_bij"]
         if not tis:
             continue
+
+        def site_bb(c_):
+            """block of b in which the call runs: its own, or — for a call inside a closure (`zip(..).all(|(x, y)| ..)`) — the
+            block that creates the closure"""
+            sub_ = c_.body
+            bb_ = c_.bb
+            while sub_ is not b and getattr(sub_, "creation", None) is not None:
+                bb_ = sub_.creation[1]
+                sub_ = sub_.creation[0]
+                if sub_.id == b.id:
+                    break
+            return bb_
         vloops = [l for l in C.iterator_loops(b) if role_mentions_call(l[1], "get_group_compatible_weak_variants") or role_mentions_call(l[1], "enodes_applied")]
         for c in tis:
-            mp = [a for a in c.args if mir.op_place(a) is not None and b.local_ty(mir.op_place(a)["l"]).startswith("&mut")]
+            mp = [a for a in c.args if mir.op_place(a) is not None and c.body.local_ty(mir.op_place(a)["l"]).startswith("&mut")]
             if not mp:
                 continue
             n += 1
-            r = b.role_of_operand(mp[0])
+            r = c.body.role_of_operand(mp[0])
             while isinstance(r, tuple) and r[0] == "call" and r[1] in ("deref", "deref_mut", "borrow", "borrow_mut", "as_mut", "as_ref") and r[3]:
                 r = r[3][0]
             base = r[1] if isinstance(r, tuple) and r[0] == "field" else r
@@ -574,14 +630,14 @@ def m10(ctx):
             own_copy = isinstance(base, tuple) and base[0] == "call" and base[1] == "clone"
             inside = False
             if own_copy and vloops:
-                inner = [l for l in vloops if c.bb in b.reach(l[3], avoid=l[2])]
+                inner = [l for l in vloops if site_bb(c) in b.reach(l[3], avoid=l[2])]
                 # the clone is made inside the innermost candidate loop around the binding
                 inside = bool(inner) and any(base[4] in b.reach(l[3], avoid=l[2]) for l in inner)
             elif own_copy:
                 inside = True
             ctx.check(own_copy and inside, "candidate-own-state:" + C.fkey(b0), "slot bindings of a candidate are made in a state cloned for that candidate",
                       "%s binds a candidate's slots in %s, which is shared between candidates (not a State cloned inside the candidate loop): when a candidate is rejected half-way its bindings stay behind, a later e-node / variant of the same class is matched under them and a fitting one is rejected — the rule misses a represented instance (which one depends on the iteration order of the class's nodes)" % (C.short(b0.id), role_str(r)[:60]),
-                      where_of(b, c.bb))
+                      where_of(c.body, c.bb))
     ctx.floor("slot-binding sites in the node matcher", n, 1)
 
 
